@@ -261,6 +261,9 @@ def run(repo: Repo, tier: str) -> Report:
     r_truthy(rep, repo, "PixelAlgorithms", "spi", ["nodata"], "0 is a legitimate nodata value (it is the one the test-suite uses); a truth test silently replaces or drops it")
     from ..rules import r_stateless
     r_stateless(rep, repo, [('PixelAlgorithms', 'spi')])
+    # the calibration sample IS part of the definition: the window indices handed to the kernels select exactly the steps begin <= t <= end
+    from .c09 import check_calibration_indices
+    check_calibration_indices(rep, repo)
     rep.floor("C07 obligations", len(rep.obls), 40)
     return rep
 
